@@ -101,14 +101,22 @@ fn query<RK: RadioKind>(
     bus: &std::rc::Rc<std::cell::RefCell<Bus>>,
     sf: SpreadingFactor,
     bw: Bandwidth,
-) -> Option<(u8, Vec<Vec<u8>>)> {
+) -> Option<(u8, Vec<Vec<u8>>, Vec<Vec<u8>>)> {
     let mp = rk.create_modulation_params(sf, bw, CodingRate::_4_5, 868_100_000).ok()?;
-    bus.borrow_mut().log.clear();
-    let r = block_on(rk.set_modulation_params(&mp));
-    if r.is_err() {
-        return None;
+    // the registers hold what an earlier configuration left there: once all zeros, once all ones (the drivers
+    // that read-modify-write must REPLACE the LDRO bit whatever it was)
+    let mut all = vec![];
+    for prior in [0x00u8, 0xff] {
+        bus.borrow_mut().responder = Box::new(move |_w: &[u8], r: &mut [u8]| r.fill(prior));
+        bus.borrow_mut().log.clear();
+        let r = block_on(rk.set_modulation_params(&mp));
+        if r.is_err() {
+            return None;
+        }
+        all.push(spi_writes(bus));
     }
-    Some((mp.low_data_rate_optimize, spi_writes(bus)))
+    let second = all.pop().unwrap();
+    Some((mp.low_data_rate_optimize, all.pop().unwrap(), second))
 }
 
 /// `vh ldro`: every implementation's LDRO decision and the bytes it programs, for all 80 (SF,BW).
@@ -127,15 +135,17 @@ pub fn ldro(a: &Args) {
             decisions.push(calc);
             out.emit(&json!({"ev":"ldro","impl":"calc","what":"decision","sf":sf.factor(),"bw":bi,
                              "supported":1,"ldro":calc,"txns":[]}));
-            let mut rec = |name: &str, q: Option<(u8, Vec<Vec<u8>>)>, decisions: &mut Vec<u32>| match q {
+            let mut rec = |name: &str, q: Option<(u8, Vec<Vec<u8>>, Vec<Vec<u8>>)>, decisions: &mut Vec<u32>| match q {
                 None => out.emit(&json!({"ev":"ldro","impl":name,"what":"decision","sf":sf.factor(),"bw":bi,
                                          "supported":0,"ldro":0,"txns":[]})),
-                Some((d, txns)) => {
+                Some((d, txns, txns_ones)) => {
                     decisions.push(d as u32);
                     out.emit(&json!({"ev":"ldro","impl":name,"what":"decision","sf":sf.factor(),"bw":bi,
                                      "supported":1,"ldro":d,"txns":[]}));
                     out.emit(&json!({"ev":"ldro","impl":name,"what":"written","sf":sf.factor(),"bw":bi,
-                                     "supported":1,"ldro":-1,"txns":txns}));
+                                     "supported":1,"ldro":-1,"txns":txns,"prior":0}));
+                    out.emit(&json!({"ev":"ldro","impl":name,"what":"written","sf":sf.factor(),"bw":bi,
+                                     "supported":1,"ldro":-1,"txns":txns_ones,"prior":255}));
                 }
             };
             {
